@@ -130,6 +130,8 @@ class Sched:
         self.ep_counter = 0
         self.describe_payload: Callable[[Any], Any] = lambda o: None
         self.on_qget: Callable[[Any], None] = lambda item: None
+        self.last_progress = 0       # step of the last send/delivery/exit/client return
+        self.livelock_window = 4000  # steps without any of those = livelock
 
     # ---------------------------------------------------------------- ids
     def cur(self) -> SimThread | None:
@@ -178,6 +180,7 @@ class Sched:
                     proc.exit_exc = st.exc
             finally:
                 st.state = 'done'
+                self.last_progress = self.steps
                 if main and not proc.dead:
                     self._proc_exit(proc)
                 self.wake.release()
@@ -321,6 +324,12 @@ class Sched:
             if self.steps >= self.max_steps:
                 self.end_reason = 'step_cap'
                 return self.end_reason
+            if self.steps - self.last_progress > self.livelock_window:
+                # threads keep running but nothing is sent, delivered or
+                # finished any more: a busy loop (e.g. select() on a dead
+                # connection that is never unregistered)
+                self.end_reason = 'livelock'
+                return self.end_reason
             if self.steps in self.crash_plan:
                 name = self.crash_plan[self.steps]
                 for p in self.procs:
@@ -368,6 +377,7 @@ class Sched:
             else:
                 ch = o[1]
                 ch.deliver_one()
+                self.last_progress = self.steps
                 self.trace.append(('D', ch.name))
             for fn in self.after_step:
                 fn()
@@ -538,6 +548,7 @@ class Endpoint:
         seq = len(s.msglog)
         s.msglog.append({'ev': 'send', 'step': s.steps, 'src': self.owner_name(), 'dst': self.peer.owner_name(), 'msg': desc, 'seq': seq})
         self.peer.inq.q.append([data, not s.inflight, seq, desc])
+        s.last_progress = s.steps
 
     def recv(self) -> Any:
         s = self.sched
@@ -548,6 +559,7 @@ class Endpoint:
             raise OSError('handle is closed')
         if self.inq.has_delivered():
             data, _, seq, desc = self.inq.q.popleft()
+            s.last_progress = s.steps
             s.msglog.append({'ev': 'recv', 'step': s.steps, 'src': self.peer.owner_name(), 'dst': self.owner_name(), 'msg': desc, 'seq': seq})
             return pickle.loads(data)
         raise EOFError()
